@@ -41,70 +41,96 @@ func inputShapes() []inputShape {
 
 const shapeValue = 1000
 
-func (f *fixture) runInputShapes(res *workerOut, addViol func(sig, what string, c caseA)) {
-	shapes := append([]inputShape{
+func allShapes() []inputShape {
+	return append([]inputShape{
 		{"A (single)", []inRef{{0, 0}}},
 		{"A,B (distinct)", []inRef{{0, 0}, {1, 0}}},
 	}, inputShapes()...)
+}
+
+// evalShape runs the three per-type checks on one transaction of the given input shape.
+func (f *fixture) evalShape(t common2.TxType, h uint32, sh inputShape, total int64) (inOK, outOK, feeOK bool, distinct int, pan string) {
+	d := map[int]bool{}
+	var ins []*common2.Input
+	refs := map[*common2.Input]common2.Output{}
+	for _, ir := range sh.Ins {
+		in := &common2.Input{Previous: common2.OutPoint{Index: uint16(ir.Slot)}, Sequence: ir.Seq}
+		in.Previous.TxID[0] = 0xD1
+		in.Previous.TxID[1] = byte(ir.Slot + 1)
+		var ph common.Uint168
+		ph[0] = 0x21
+		ph[1] = byte(ir.Slot + 1)
+		ins = append(ins, in)
+		// what UTXOCache.GetTxReference returns: one entry per listed input
+		refs[in] = common2.Output{AssetID: core.ELAAssetID, Value: shapeValue, ProgramHash: ph}
+		d[ir.Slot] = true
+	}
+	distinct = len(d)
+	tx := f.mkTx(t, f.outputs(t, []int64{total}), ins, h)
+	defer func() {
+		if r := recover(); r != nil {
+			pan = fmt.Sprint(r)
+		}
+	}()
+	inOK = tx.CheckTransactionInput() == nil
+	outOK = tx.CheckTransactionOutput() == nil
+	feeOK = tx.CheckTransactionFee(refs) == nil
+	return
+}
+
+func shapeTotals(k int64) []int64 {
+	var out []int64
+	for j := int64(1); j <= k; j++ {
+		out = append(out, shapeValue*j-minFee, shapeValue*j)
+	}
+	return out
+}
+
+func judgeShape(sh inputShape, distinct int, total int64) (bool, string) {
+	spent := big.NewInt(shapeValue * int64(distinct))
+	if big.NewInt(total).Cmp(spent) > 0 {
+		return true, fmt.Sprintf("inputs %s (%d distinct outpoint(s) worth %s) with an output of %d pass the input, output and fee checks: the spent output is counted once per listed copy", sh.Name, distinct, spent, total)
+	}
+	return false, ""
+}
+
+func (f *fixture) runInputShapes(res *workerOut, addViol func(sig, what string, c caseA)) {
 	classes := map[string]int{}
-	for _, t := range allTypes() {
+	types := allTypes()
+	// baseline (TransferAsset) first, so that other types are named only when they differ
+	for i, t := range types {
+		if t.T == common2.TransferAsset {
+			types[0], types[i] = types[i], types[0]
+		}
+	}
+	base := map[string]bool{}
+	for _, t := range types {
 		for _, h := range []uint32{100, 3000000} {
-			for _, sh := range shapes {
-				k := int64(len(sh.Ins))
-				distinct := map[int]bool{}
-				var ins []*common2.Input
-				refs := map[*common2.Input]common2.Output{}
-				for _, ir := range sh.Ins {
-					in := &common2.Input{Previous: common2.OutPoint{Index: uint16(ir.Slot)}, Sequence: ir.Seq}
-					in.Previous.TxID[0] = 0xD1
-					in.Previous.TxID[1] = byte(ir.Slot + 1)
-					var ph common.Uint168
-					ph[0] = 0x21
-					ph[1] = byte(ir.Slot + 1)
-					ins = append(ins, in)
-					refs[in] = common2.Output{AssetID: core.ELAAssetID, Value: shapeValue, ProgramHash: ph}
-					distinct[ir.Slot] = true
-				}
-				spent := big.NewInt(shapeValue * int64(len(distinct)))
-				totals := map[int64]bool{}
-				for j := int64(1); j <= k; j++ {
-					totals[shapeValue*j-minFee] = true
-					totals[shapeValue*j] = true
-				}
-				for total := range totals {
-					outs := f.outputs(t.T, []int64{total})
-					tx := f.mkTx(t.T, outs, ins, h)
-					inOK, outOK, feeOK, pan := false, false, false, ""
-					func() {
-						defer func() {
-							if r := recover(); r != nil {
-								pan = fmt.Sprint(r)
-							}
-						}()
-						inOK = tx.CheckTransactionInput() == nil
-						outOK = tx.CheckTransactionOutput() == nil
-						feeOK = tx.CheckTransactionFee(refs) == nil
-					}()
+			for _, sh := range allShapes() {
+				for _, total := range shapeTotals(int64(len(sh.Ins))) {
+					inOK, outOK, feeOK, distinct, pan := f.evalShape(t.T, h, sh, total)
 					res.ShapeEvals++
 					if pan != "" {
 						res.Panics[t.Name+": input shapes: "+trim(pan)]++
 						continue
 					}
 					acc := inOK && outOK && feeOK
+					key := fmt.Sprintf("%d|%s|%d", h, sh.Name, total)
 					if t.T == common2.TransferAsset {
-						classes[fmt.Sprintf("shape=%s|out=%dx-%d|input-check=%v|accepted=%v", sh.Name, (total+minFee)/shapeValue, (shapeValue-total%shapeValue)%shapeValue, inOK, acc)]++
+						base[key] = acc
+						classes[fmt.Sprintf("shape=%s|out=%d|input-check=%v|accepted=%v", sh.Name, total, inOK, acc)]++
 					}
-					if acc {
-						res.ShapeAccepted++
-						if big.NewInt(total).Cmp(spent) > 0 {
-							site := "common"
-							if t.T != common2.TransferAsset {
-								site = "common" // one defect site per implementation; refined below
-							}
-							addViol("C01|value-created|outpoint-counted-twice|"+site,
-								fmt.Sprintf("inputs %s (%d distinct outpoint(s) worth %s) with an output of %d pass the input, output and fee checks: the spent output is counted once per listed copy", sh.Name, len(distinct), spent, total),
-								caseA{Type: int(t.T), Name: t.Name, H: h, Outputs: amounts{total}, Inputs: amounts{}, Shape: sh.Name})
+					if !acc {
+						continue
+					}
+					res.ShapeAccepted++
+					if bad, what := judgeShape(sh, distinct, total); bad {
+						site := "common"
+						if !base[key] {
+							site = t.Name
 						}
+						addViol("C01|value-created|outpoint-counted-twice|"+site, what,
+							caseA{Type: int(t.T), Name: t.Name, H: h, Outputs: amounts{total}, Inputs: amounts{}, Shape: sh.Name})
 					}
 				}
 			}
